@@ -108,6 +108,37 @@ def check(prog, res, tier):
     res.add(runs.judge('C02.a', 'a refusal by the element encoder uses Iso8583DataError', func_where(fi),
                        'raise Iso8583DataError(...)', chk_ref, rule='C02.a.error'))
 
+    # ---- C02.a'' ... and only then: a value that the prefix can count is not refused
+    def chk_acc(p, mode):
+        ft, pt, vk = partition(p)
+        if ft not in K or p.outcome != 'raise' or pt is not None or vk not in ('str', 'bytes'):
+            return []
+        exc = p.value
+        node = exc.raise_node
+        if not isinstance(node, ast.Raise) or exc.op is not None:
+            return []
+        par = node
+        while par is not None:
+            par = getattr(par, '_parent', None)
+            if isinstance(par, ast.ExceptHandler):
+                return []
+        val = p.interp.user['value']
+        if not (isinstance(val, SeqV) and len(val.segs) == 1 and isinstance(val.segs[0], Sl)):
+            return []
+        n = val.segs[0].src.length
+        lim = 10 ** K[ft] - 1
+        trial = p.store.copy()
+        try:
+            trial.assume_ge0(Lin.const(lim) - n)
+        except Infeasible:
+            return []
+        return [Failure(f'{ft}: a {vk} value of {p.store.canon(n)} characters in {p.store.bounds(n)} is refused by '
+                        f'{norm_text(node)[:70]} although a {K[ft]}-digit prefix counts up to {lim}', node=node,
+                        neg=[[Lin.const(lim) - n]])]
+    chk_acc.no_return_ok = True
+    res.add(runs.judge('C02.a', 'LLVAR/LLLVAR: a text or bytes value of up to 99/999 characters is never refused', func_where(fi),
+                       "if field_length >= 10 ** length_size: raise", chk_acc, rule='C02.a.accept'))
+
     # ---- C02.b payload
     def chk_b(p, mode):
         ft, pt, vk = partition(p)
